@@ -634,6 +634,23 @@ class Sim:
             if close_enough(res[2], r2[2]):
                 ok = True
                 self.stats["tolerant_pass"] += 1
+        if not ok and isinstance(lineage, list) and len(lineage) > 1 and res[0] == "ok" and r2[0] == "ok":
+            # update lineage: "old and new data combined" can be laid out in memory in
+            # more than one way (pd.concat vs combine_first give C- vs F-ordered values);
+            # where two fresh twins that differ only in that layout disagree with each
+            # other, the decision sits at rounding level (e.g. a tuned threshold over
+            # pure rounding noise) and the case is not judged
+            try:
+                comb = lineage[0]
+                for ch in lineage[1:]:
+                    comb = ch.combine_first(comb)
+                alt = twin_outcome(cur, [comb], op, arg)
+            except Exception:  # noqa: BLE001
+                alt = {"status": "nobuild"}
+            if alt["status"] == "done" and alt["res"][:2] != r2[:2]:
+                self.stats["illconditioned_skip"] = self.stats.get("illconditioned_skip", 0) + 1
+                ev["cmp"] = "illcond"
+                return
         if not ok:
             ev["cmp"] = "NE"
             self.violate(
